@@ -35,6 +35,11 @@ CHECKS = {
    technique="bounded-exhaustive enumeration of URL patterns x method lists x instantiated requests; registered expressions (from a real Stream / policy config) evaluated as regexes against the engine's own match verdict",
    text="43 URL patterns (dotted hosts, host and path parameters, dotted parameter name, trailing wildcard, literals with each regex metacharacter) x method lists x every instantiation x 7 request methods. For flows a real Stream is loaded from YAML and the manager's buildHAProxyFlowsEndpointsRequest produces the expressions; for policies BuildHAProxyEndpointsRequest. Whenever the real FilterTree / EndpointPolicyTree matches (method, URL), some registered expression must match 'METHOD:::url' as an unanchored regex.",
    note="haproxy map_reg assumed to agree with Go RE2 on the generated fragment; standard HTTP methods only; one filter per engine"),
+
+ "C09": dict(level="model_checking", engine="seqx-bfs+schedx", design="§3 C09",
+   technique="explicit-state BFS over event histories of the real plugin (fresh instance + replay per transition, virtual time) against a grid-window reference counter; exhaustive allocation table; schedule exploration of concurrent first requests",
+   text="For 28 configurations (allowed 1-3; W 1, 2, 7 s; allocation tables with every default behaviour) every history up to depth 6 (8 thorough) over requests of two remedies x four group header values and clock steps landing exactly on / 1 ns after grid boundaries is executed on the real StrategyBasedThrottlingPlugin; verdicts must equal the per-(remedy, group, aligned window) reference (bound + sequential exactness + isolation). The complete table allowed 1..300 x pct 1..100 checks the rounded-up share, and all schedules (<=2 preemptions) of three concurrent first requests check the bound under concurrency.",
+   note="state key = implementation dump + reference + phase (merging argued sound because the dump holds every field TryToIncrement reads); window-size changes not in the alphabet; virtual time via synctest"),
 }
 NA_REASON = "check not built yet in this round (work in progress; planned per DESIGN.md §3)"
 def main():
